@@ -178,10 +178,12 @@ func (d *DBFT[H]) OnTransaction(tx Transaction[H]) {
 	if i < 0 {
 		return
 	}
+	view := d.ViewNumber
 	d.addTransaction(tx)
 	// `addTransaction` checks for responses and commits. If this was the last transaction
-	// Context could be initialized on a new height, clearing this field.
-	if len(d.MissingTransactions) == 0 {
+	// Context could be initialized on a new view (and even got a new PrepareRequest with
+	// its own missing transactions), making the index above meaningless.
+	if d.ViewNumber != view || len(d.MissingTransactions) == 0 {
 		return
 	}
 	d.MissingTransactions = slices.Delete(d.MissingTransactions, i, i+1)
